@@ -251,6 +251,42 @@ def run(rep: Report, tier: str) -> None:  # noqa: C901
                                        f"`{kw} between {a[0]} {a[1]} and {b[0]} {b[1]}` (-1 = unbounded, 0 = current data point) is built as the frame {got6}; "
                                        f"expected {want6 if want6 is not None else 'a rejection'} (offsets relative to the current datapoint, start <= stop)"))
     rep.floor("R06.6 written frames evaluated", n66, 80)
+    # ---- R06.8 the window kind is stored as the text of the clause's first token: every comparison uses one of those texts ----
+    rep.rule("R06.8", "Windowing.type_ is compared only with the values the constructor stores (texts of DATA / RANGE from the grammar)")
+    from sa import g4 as _g4
+    _G = _g4.load(P)
+    stored = {t for t in (_G.tokens.get("DATA"), _G.tokens.get("RANGE")) if t}
+    if len(stored) != 2:
+        raise AnalysisError(f"grammar: DATA / RANGE token texts not found ({stored})")
+    ctor_defaults = {k.value.value for f_ in P.iter_functions() if f_.module.name.startswith("vtlengine.AST.ASTConstructor") for c_ in walk_no_nested(f_.node)
+                     if isinstance(c_, ast.Call) and src(c_.func).split(".")[-1] == "Windowing" for k in c_.keywords if k.arg == "type_" and isinstance(k.value, ast.Constant)}
+    if not ctor_defaults <= stored:
+        raise AnalysisError(f"constructor stores Windowing.type_ values {ctor_defaults - stored} that are not DATA / RANGE token texts")
+    # values the constructor stores in the `type_` field of OTHER node classes (Constant, ParamConstant, ID ...): comparisons with those are not about windows
+    other_type_values: Set[str] = set()
+    for f_ in P.iter_functions():
+        if f_.module.name.startswith("vtlengine.AST.ASTConstructor"):
+            for c_ in walk_no_nested(f_.node):
+                if isinstance(c_, ast.Call) and src(c_.func).split(".")[-1] != "Windowing":
+                    for k in c_.keywords:
+                        if k.arg == "type_":
+                            other_type_values |= {v for v in (P.const_values(f_, f_.module, k.value) or set()) if isinstance(v, str)}
+    n8 = 0
+    for f_ in P.iter_functions():
+        if not f_.module.name.startswith("vtlengine") or f_.module.name.startswith("vtlengine.AST.ASTConstructor"):
+            continue
+        for c_ in walk_no_nested(f_.node):
+            if isinstance(c_, ast.Compare) and isinstance(c_.left, ast.Attribute) and c_.left.attr == "type_":
+                for cmp_ in c_.comparators:
+                    consts = [x.value for x in ast.walk(cmp_) if isinstance(x, ast.Constant) and isinstance(x.value, str)]
+                    for v_ in consts:
+                        n8 += 1
+                        rep.instance("R06.8", f"window-kind/{f_.qualname}/{v_}", nontrivial=True)
+                        if v_ not in stored and v_ not in other_type_values:
+                            rep.add(Finding("R06.8", f"R06.8/window-kind/{f_.qualname}/{v_}", f_.module.rel, c_.lineno, f_.qualname,
+                                            f"`{src(c_)}` compares the window kind with {v_!r}, a value the AST never holds (the constructor stores {sorted(stored)}): the test has the same outcome "
+                                            f"for every window, so rows windows are treated as range windows or the reverse"))
+    rep.floor("R06.8 window-kind comparisons", n8, 2)
     # ---- R06.7 analytic windows order Time_Period components as text: one stored text per period, zero padded ----
     rep.rule("R06.7", "every accepted spelling of a Time_Period is stored as the one canonical (zero padded) text, which ORDER BY / PARTITION BY then compare")
     from sa import sqlx as _sqlx7
